@@ -378,6 +378,11 @@ def optimize_circuit(seq):
                 b = q[i + 1]
                 # the ops must have equal size and act on the same wires
                 if a.op.ns == b.op.ns and a.reg == b.reg:
+                    if a.op.measurement_deps or b.op.measurement_deps:
+                        # the commands also sit on the wires of the measured modes they depend
+                        # on, and the measured value may change between them
+                        i += 1
+                        continue
                     if a.op.ns != 1:
                         # ns > 1 is tougher. on no wire must there be anything
                         # between them, also deleting is more complicated
